@@ -16,6 +16,7 @@ mod gperf;
 mod grad;
 mod gs;
 mod json;
+mod nop;
 mod rng;
 mod settings;
 mod strains;
@@ -40,6 +41,8 @@ fn main() {
         "conc" => conc::main(arg(&args, 2, 0), arg(&args, 3, 100), arg(&args, 4, 30)),
         "dec" => dec::main(arg(&args, 2, 0), arg(&args, 3, 100), arg(&args, 4, 100), arg(&args, 5, 100)),
         "conv" => conv::main(arg(&args, 2, 0), arg(&args, 3, 100), arg(&args, 4, 40)),
+        "nop" => nop::main(arg(&args, 2, 0), arg(&args, 3, 0), arg(&args, 4, 100), args.get(5).map_or(false, |s| s == "real")),
+        "banana" => nop::banana_main(arg(&args, 2, 0), arg(&args, 3, 100)),
         "gperf" => gperf::main(arg(&args, 2, 0), arg(&args, 3, 100), arg(&args, 4, 40)),
         "grad" => grad::main(arg(&args, 2, 0), arg(&args, 3, 100), arg(&args, 4, 40)),
         _ => {
